@@ -377,4 +377,3 @@ package protobuf
 //@   modifies *
 //@   inlines FromSubChannelProposalMsg, ToSubChannelProposalMsg
 //@   ensures fromErr == nil && toErr == nil ==> y != nil && y.Parent == x.Parent && pbBaseEq(y.BaseChannelProposal, x.BaseChannelProposal)
-
